@@ -47,7 +47,9 @@ Legal(target, shape, as) == Why(target, shape, as) = ""
 
 \* rows whose legality the documentation leaves open: not judged
 Open(target, shape, as) ==
-  \/ Has(as, "rank") /\ ~Get(as, "rank").bare /\ Get(as, "rank").v = "0"     \* "rank of 0 implies scalar"
+  \* "rank of 0 implies scalar": what else may accompany it is left open -- except dimension, which the
+  \* documentation excludes for every rank
+  \/ Has(as, "rank") /\ ~Get(as, "rank").bare /\ Get(as, "rank").v = "0" /\ ~Has(as, "dimension")
   \/ Has(as, "external") /\ ~shape.fptr
   \/ Has(as, "assumedtype") /\ shape.base # "void"
   \/ Has(as, "pass")
